@@ -251,6 +251,8 @@ def generate_playback(h, timeout_s, mem_gb):
     out = p.stdout
     tests = re.findall(r'```\n(.*?)```', out, re.S)
     seen, uniq = set(), []
+    # the doc comment Kani generates repeats the assertion text, which may span several lines: keep the code only
+    tests = [t[t.index('#[test]'):] if '#[test]' in t else t for t in tests]
     for t in tests:
         m = re.search(r'fn (kani_concrete_playback_\w+)\(', t)
         name = m.group(1) if m else t
